@@ -27,7 +27,7 @@ def handle (op : String) (args : List String) : Option String :=
       some (showRat (((rpeRots ref est pairs).map so3Margin).foldl (fun a b => if b < a then b else a) 1))
   | "plan", rest => do
       let o ← readRpeOpts rest
-      some (showPlan (rpePlan o))
+      some (showPlan o.common (rpePlan o))
   | "run", rest => do
       let (c, rest) ← readCommonOpts rest
       match rest with
